@@ -129,11 +129,27 @@ def install(E):
         if not 1 <= len(a) <= 3:
             E.throw("TypeError", "range expected 1 to 3 arguments")
         vals = []
+        if len(a) == 1 and isinstance(a[0], SymInt):
+            # range(n) is empty for every n <= 0: no need to enumerate the non-positive values
+            if not E.decide(mk_bool(a[0].e > 0)):
+                return range(0)
         for x in a:
             if isinstance(x, EnumVal):
                 x = x.v
             if not numeric(x):
                 E.throw("TypeError", "range() argument must be an integer")
+            if E.range_cap is not None and isinstance(x, SymInt):
+                # declared bound of the harness: loop counts decoded from symbolic data are explored up to the
+                # cap only; larger counts are outside the claim (recorded in the evidence)
+                E.commit()
+                cap = mk_bool(x.e <= E.range_cap)
+                if cap is not True:
+                    E.assumptions_used.add("range-cap:%d" % E.range_cap)
+                    if cap is False:
+                        raise PathAbort()
+                    E.add(cap.e)
+                    if not E._check():
+                        raise PathAbort()
             vals.append(E.concretize(x))
         if len(vals) == 3 and vals[2] == 0:
             E.throw("ValueError", "range() arg 3 must not be zero")
@@ -955,6 +971,16 @@ def install_harness_api(E):
     def is_vsx():
         return True
 
+    def set_range_cap(k):
+        E.range_cap = k
+
+    def load_class(module, qualname):
+        m = E.load(module)
+        o = m
+        for part in qualname.split("."):
+            o = E.getattr(o, part)
+        return o
+
     def forked(fn, *args, **kw):
         """Call fn with branch merging switched off (plain path forking) - an exploration-strategy
         choice of the harness for code whose predicated form is harder for the solver than its paths."""
@@ -967,7 +993,7 @@ def install_harness_api(E):
 
     api = dict(sym_int=sym_int, sym_bool=sym_bool, sym_bytes=sym_bytes, sym_str=sym_str, assume=assume, check=check,
                reach=reach, observe=observe, fork=fork, cp1252_enc=cp1252_enc, cp1252_dec=cp1252_dec, cp1252_ok=cp1252_ok,
-               str_of=str_of, cps_of=cps_of, tdiv=tdiv, exc_name=exc_name, is_vsx=is_vsx, forked=forked)
+               str_of=str_of, cps_of=cps_of, tdiv=tdiv, exc_name=exc_name, is_vsx=is_vsx, forked=forked, load_class=load_class, set_range_cap=set_range_cap)
     for k, f in api.items():
         B[k] = Native(f, k)
     E.plain = plain
